@@ -59,7 +59,51 @@ func C09Scenario() *Scenario {
 			}
 			w.Cfg["revisionWatchLag"] = fmt.Sprint(lag)
 		}
-		w.EnvOps = func(w *World) []EnvOp { return s.StatusActor(true) }
+		// in a third of the runs somebody deletes, once, a child that an old revision
+		// still records while the rollout is under way: it has to come back as that
+		// revision desires it (re-created from the latest one it would be ahead of its record)
+		childLoss := t.Pick(3, "child-deleted-mid-rollout") == 2
+		w.Cfg["childDeletedMidRollout"] = fmt.Sprint(childLoss)
+		w.EnvOps = func(w *World) []EnvOp {
+			ops := s.StatusActor(true)
+			po := p.Get(w)
+			if !childLoss || po == nil {
+				return ops
+			}
+			revs := ControlledBy(w.Store, ResRevision, mstr(po, "uid"))
+			if len(revs) < 2 {
+				return ops
+			}
+			rule := s.rollingRule()
+			latestPatch := jsonString(makeFieldPatch(po, fieldPathsOf(s.Cfg)))
+			for _, o := range revs {
+				r := parseRevision(o)
+				if jsonString(r.Patch) == latestPatch {
+					continue
+				}
+				for i := int(getInt(po, "spec", "replicas")) - 1; i >= 0; i-- {
+					name := fmt.Sprintf("%s-%d", p.Name, i)
+					if !r.claims(claimKey(rule.Res.Group, rule.Res.Kind, name)) {
+						continue
+					}
+					ns := ""
+					if rule.Res.Namespaced {
+						ns = p.NS
+					}
+					if w.Store.Get(rule.Res, ns, name) == nil {
+						continue
+					}
+					ops = append(ops, EnvOp{"delete-child-of-old-revision " + name, func(w *World) {
+						childLoss = false
+						EditObject(w, rule.Res, ns, name, "user", func(o Object) { delete(meta(o), "finalizers") })
+						w.Store.Delete(rule.Res, ns, name, DeleteOpts{}, "user")
+						w.Probe("c09:child-of-old-revision-deleted-mid-rollout")
+					}})
+					return ops
+				}
+			}
+			return ops
+		}
 		changeStep := 0
 		second := t.Pick(3, "second-change") == 2
 		w.OnCrash = func(w *World) *Violation { return c09AtRestart(w, s, p) }
